@@ -260,6 +260,7 @@ func (e *Engine) runPath(h *HarnessCfg, fn *ssa.Function, prefix []int, pool *Po
 }
 
 var debugEngine bool
+var progress bool
 
 func (e *Engine) runHarness(h *HarnessCfg, workers int) *HarnessResult {
 	start := time.Now()
@@ -301,7 +302,11 @@ func (e *Engine) runHarness(h *HarnessCfg, workers int) *HarnessResult {
 				active++
 				mu.Unlock()
 
+				t0 := time.Now()
 				res := e.runPath(h, fn, pfx, pool)
+				if progress {
+					fmt.Printf("  path prefix=%d end=%s %s steps=%d forks=%d viol=%d %.1fs\n", len(pfx), res.End, res.Msg, res.Steps, len(res.Forks), len(res.Violations), time.Since(t0).Seconds())
+				}
 
 				mu.Lock()
 				active--
